@@ -81,8 +81,14 @@ def _config(physics, output, n_steps, estimation, history, save_steps=False, spa
     """``span_steps``: configured span (start..stop_timestamp) in steps; default covers the run. A run may legally go
     PAST the configured span (``resonaate -t <hours>`` does): the epochs beyond it are then created by the saves."""
     tg, ss, events, fp = _network(START, estimation, history, physics, n_steps, save_steps)
-    return scen.config(START, (n_steps + 1) if span_steps is None else span_steps, [scen.engine(1, tg, ss)], physics=physics, output=output,
-                       truth_only=not estimation, events=events, filter_params=fp, seed=3)
+    cfg = scen.config(START, (n_steps + 1) if span_steps is None else span_steps, [scen.engine(1, tg, ss)], physics=physics, output=output,
+                      truth_only=not estimation, events=events, filter_params=fp, seed=3)
+    if history == "gpf":
+        # the genetic particle filter: its filter steps are rows of another joined table (particle_filter_step)
+        cfg["estimation"]["sequential_filter"] = {
+            "name": "genetic_particle_filter", "dynamics_model": "two_body", "population_size": 24, "num_purge": 4, "num_keep": 4,
+            "num_mutate": 12, "save_filter_steps": save_steps, "maneuver_detection": None}
+    return cfg
 
 
 STEP_PAIRS = [(60, 60), (60, 300), (300, 60), (300, 400), (120, 300)]
@@ -112,6 +118,10 @@ def items(tier, seed):
     for (p, o) in ((60, 60), (60, 300)):
         out.append(("audit", p, o, n, True, "none", "single", [n], True))  # save_filter_steps
         out.append(("audit", p, o, n, True, "maneuver", "each_step", list(range(1, n + 1)), True))
+    # the particle filter (its filter steps live in their own joined table), with and without saved filter steps
+    out.append(("audit", 60, 60, 4, True, "gpf", "single", [4], True))
+    out.append(("audit", 60, 120, 4, True, "gpf", "each_step", [1, 2, 3, 4], True))
+    out.append(("audit", 60, 60, 4, True, "gpf", "split2", [2, 4], False))
     # spans of a day and more (the days part of the configured span matters) with records at non-output epochs
     out.append(("audit", 3600, 7200, 26, True, "none", "single", [26], False))
     out.append(("audit", 3600, 7200, 26, True, "none", "split13", [13, 26], False))
@@ -274,6 +284,16 @@ def _audit(res, sc, saves, case, item, truth_only):
         if "filterstep" in tables and "sequential_filter_step" in tables:
             orphans = _rows(conn, "SELECT id FROM sequential_filter_step WHERE id NOT IN (SELECT id FROM filterstep)")
             chk("filterstep_parent", not orphans, "fk/filter_step_parent_missing", observed=len(orphans))
+        kids = [t for t in ("sequential_filter_step", "particle_filter_step") if t in tables]
+        if "filterstep" in tables and kids:
+            # joined-table rows: every child row has its parent row and every parent row exactly one child row
+            child_ids = [int(r[0]) for t in kids for r in _rows(conn, f'SELECT id FROM "{t}"')]
+            parent_ids = [int(r[0]) for r in _rows(conn, "SELECT id FROM filterstep")]
+            chk("filterstep_children", sorted(child_ids) == sorted(parent_ids), "fk/filter_step_parent_child_mismatch",
+                observed={"parents": len(parent_ids), "children": len(child_ids),
+                          "childless": sorted(set(parent_ids) - set(child_ids))[:3], "orphans": sorted(set(child_ids) - set(parent_ids))[:3]})
+            for t in kids:
+                res.extra[f"rows_{t}"] = res.extra.get(f"rows_{t}", 0) + len(_rows(conn, f'SELECT id FROM "{t}"'))
 
 
 def _run_audit(res, item):
